@@ -11,6 +11,20 @@
 (*   "par"   two such calls on the two different channels from two            *)
 (*           goroutines; both downstream calls are inside the fake at the     *)
 (*           same time and are released in the order `first`                  *)
+(*   "learn" the SAME writer handles something through which it learns about  *)
+(*           the life cycle of an object: the drop of a collection / of a     *)
+(*           partition (HandleReplicateAPIEvent), the drop of a database      *)
+(*           (HandleOpMessagePack), or a create-partition event (the          *)
+(*           readiness probe records the collection as created).  The cfg     *)
+(*           step may also seed the writer's dropped-object tables            *)
+(*           (droppedObjs of NewChannelWriter = the start-up snapshot).       *)
+(* History matters because the writer keeps tables (dbInfos, collectionInfos, *)
+(* partitionInfos) and the statement quantifies over ALL packs and outcomes:  *)
+(* a call names an object class `obj` (which collection its messages belong   *)
+(* to; "any" = drawn per message) and an epoch `ep`: "old" = in-flight data   *)
+(* older than everything the writer has learnt, "fresh" = newer.  Model time: *)
+(* the step that extends a history of length n happens at epoch n+1 (cfg      *)
+(* step and its seeds: epoch 1), "old" data carries epoch 0.                  *)
 (* Message CONTENTS (ids, names, rows, primary keys, timestamps, positions)   *)
 (* are opaque here: the driver draws them with rapid and reports equality     *)
 (* bits per field group after decoding MsgsBytes with Milvus' own unmarshal   *)
@@ -29,12 +43,35 @@ CONSTANTS MaxOps,      \* steps per plan, including the cfg step
           ParKinds,    \* message kinds of "par" packs
           ParMaxLen,   \* longest "par" pack
           WithCall, WithPar,
-          Salts        \* sampling indices: one random content per (step, salt, VERIF_SEED)
+          Salts,       \* sampling indices: one random content per (step, salt, VERIF_SEED)
+          Rids, Maps,  \* configuration domain of the cfg step (replicate id on/off, mapping modes)
+          CallChs,     \* channels of "call" steps
+          CallObjs,    \* object classes a call may name: "any" (per message, drawn by the driver) / "m" / "s" / "o"
+          Eps,         \* epochs of calls that name an object class: "old" / "fresh"
+          SeedLvls,    \* levels of dropped-object seeds offered to the cfg step ("db" / "coll" / "part"); {} = none
+          LearnKinds,  \* kinds of "learn" steps; {} = none
+          MaxCalls,    \* at most this many call / par steps per plan
+          SwallowLvls  \* NEGATIVE CONTROL.  {} = as built.  A level l in this set models the defect class "the outcome of
+                       \* the downstream call depends on what the writer knows": a failing call of a pack whose rows all belong
+                       \* to an object the writer has recorded as dropped (at level l, not before the rows) is answered with
+                       \* success.  Every config with a non-empty set MUST violate ContractHolds.
 
 AllKinds == {"insert", "delete", "dropcoll", "droppart", "tick", "import"}
 ASSUME Kinds \subseteq AllKinds /\ ParKinds \subseteq AllKinds
 Channels == {"chA", "chB"}
 MapModes == {"none", "exact", "dbwild"}
+\* object classes of the driver's naming world: "m" = the collection named by the mapping entry (source db, source collection),
+\* "s" = another collection of the same database, "o" = a collection of a database without any entry
+ObjNames == {"m", "s", "o"}
+DbOf(x) == IF x = "o" THEN "odb" ELSE "sdb"
+Lvls == {"db", "coll", "part"}
+AllLearnKinds == {"dropcoll", "droppart", "dropdb", "createpart"}
+ASSUME /\ Rids \subseteq BOOLEAN /\ Maps \subseteq MapModes /\ CallChs \subseteq Channels
+       /\ CallObjs \subseteq ObjNames \cup {"any"} /\ Eps \subseteq {"old", "fresh"}
+       /\ SeedLvls \subseteq Lvls /\ LearnKinds \subseteq AllLearnKinds /\ SwallowLvls \subseteq Lvls
+LearnObjs == CallObjs \ {"any"}
+\* (object class, epoch) of a call: "any" goes with "any" (contents and times drawn freely by the driver)
+Targets == {<<x, e>> \in (CallObjs \X (Eps \cup {"any"})) : (x = "any") <=> (e = "any")}
 
 RECURSIVE SeqsOf(_, _)
 SeqsOf(S, n) == IF n = 0 THEN {<<>>}
@@ -45,10 +82,12 @@ Packs(S, n) == SeqsOf(S, n) \ {<<>>}
 VARIABLES cfg,       \* [rid |-> BOOLEAN, map |-> MapModes]  ("unset" before the cfg step)
           handlers,  \* channels with a started hand-off goroutine
           last,      \* the calls of the last step with their outcomes: Seq([c |-> call, o |-> outcome])
+          know,      \* what the writer has recorded about object life cycles: set of [k, lvl, obj, t]
+                     \*   k = "drop": dropped at epoch t; k = "create": known to exist since just after epoch t
           hist
 
-vars == <<cfg, handlers, last, hist>>
-view == <<cfg, handlers, last, Len(hist)>>
+vars == <<cfg, handlers, last, know, hist>>
+view == <<cfg, handlers, last, know, Len(hist)>>
 
 NoCfg == [rid |-> FALSE, map |-> "unset"]
 
@@ -67,52 +106,89 @@ Downstream(c) ==
      eq |-> [g \in {"begin", "end", "startpos", "endpos"} |-> TRUE],
      msgs |-> [i \in 1..Len(c.pack) |-> SentMsg(c.pack, i)]]
 
+Now == Len(hist) + 1                       \* epoch of the step being taken
+EpochOf(c) == IF c.ep = "old" THEN 0 ELSE Now
+NCalls == Cardinality({i \in 1..Len(hist) : hist[i].op \in {"call", "par"}})
+
+\* the writer's tables say: the object the rows of c belong to was dropped, and not before the rows were written
+Covers(r, x) == IF r.lvl = "db" THEN DbOf(r.obj) = DbOf(x) ELSE r.obj = x
+KnownDropped(c, lvls) ==
+    /\ c.obj # "any" /\ c.ep # "any"
+    /\ \E r \in know : r.k = "drop" /\ r.lvl \in lvls /\ Covers(r, c.obj) /\ EpochOf(c) <= r.t
+RowsOnly(pack) == /\ \A i \in 1..Len(pack) : pack[i] \in {"insert", "delete", "tick"}
+                  /\ \E i \in 1..Len(pack) : pack[i] \in {"insert", "delete"}
+\* negative control only (SwallowLvls = {} as built: HandleReplicateMessage never consults the tables)
+Swallowed(c) == c.fail /\ RowsOnly(c.pack) /\ KnownDropped(c, SwallowLvls)
+
 \* one downstream call through the channel's hand-off goroutine; its error comes back through errChan;
 \* on success the msg id of the pack's last end position is returned
 Outcome(c) ==
     [down |-> <<Downstream(c)>>,
-     ret  |-> [err |-> c.fail, ckpt |-> IF c.fail THEN "nil" ELSE "lastend", early |-> FALSE]]
+     ret  |-> IF Swallowed(c) THEN [err |-> FALSE, ckpt |-> "lastend", early |-> FALSE]
+              ELSE [err |-> c.fail, ckpt |-> IF c.fail THEN "nil" ELSE "lastend", early |-> FALSE]]
 
-Call(ch, pack, fail) == [ch |-> ch, pack |-> pack, fail |-> fail]
+Call(ch, pack, fail, tg) == [ch |-> ch, pack |-> pack, fail |-> fail, obj |-> tg[1], ep |-> tg[2]]
 
-Init == cfg = NoCfg /\ handlers = {} /\ last = <<>> /\ hist = <<>>
+Init == cfg = NoCfg /\ handlers = {} /\ last = <<>> /\ know = {} /\ hist = <<>>
 
-Configure(r, m) ==
+\* NewChannelWriter(..., droppedObjs, ...): the start-up snapshot fills the drop tables (epoch 1)
+SeedChoices == {<<>>} \cup {<<[lvl |-> l, obj |-> x]>> : l \in SeedLvls, x \in LearnObjs}
+Configure(r, m, seeds) ==
     /\ hist = <<>>
     /\ cfg' = [rid |-> r, map |-> m]
+    /\ know' = {[k |-> "drop", lvl |-> seeds[i].lvl, obj |-> seeds[i].obj, t |-> Now] : i \in 1..Len(seeds)}
     /\ UNCHANGED handlers /\ last' = <<>>
-    /\ hist' = Append(hist, [op |-> "cfg", rid |-> r, map |-> m])
+    /\ hist' = Append(hist, [op |-> "cfg", rid |-> r, map |-> m, seeds |-> seeds])
 
-Replicate(ch, pack, fail, z) ==
-    /\ hist # <<>> /\ WithCall
-    /\ LET c == Call(ch, pack, fail) IN
+\* dropCollection / dropPartition (api events) and dropDatabase (op message) send the drop downstream and record the drop
+\* time under the source names; createPartition probes database and collection (DescribeCollection succeeds) and records
+\* the collection as created right after its last known drop
+LastDrop(x) == LET S == {r.t : r \in {q \in know : q.k = "drop" /\ q.lvl = "coll" /\ q.obj = x}} IN
+               IF S = {} THEN 0 ELSE CHOOSE t \in S : \A u \in S : u <= t
+Learnt(kind, x) ==
+    CASE kind = "dropcoll"   -> [k |-> "drop", lvl |-> "coll", obj |-> x, t |-> Now]
+      [] kind = "droppart"   -> [k |-> "drop", lvl |-> "part", obj |-> x, t |-> Now]
+      [] kind = "dropdb"     -> [k |-> "drop", lvl |-> "db", obj |-> x, t |-> Now]
+      [] kind = "createpart" -> [k |-> "create", lvl |-> "coll", obj |-> x, t |-> LastDrop(x)]
+Learn(kind, x) ==
+    /\ hist # <<>>
+    /\ Len(hist) < MaxOps - 1                 \* never the last step of a plan: nothing observable would follow it
+    /\ know' = know \cup {Learnt(kind, x)}
+    /\ last' = <<>>
+    /\ UNCHANGED <<cfg, handlers>>
+    /\ hist' = Append(hist, [op |-> "learn", kind |-> kind, obj |-> x])
+
+Replicate(ch, pack, fail, tg, z) ==
+    /\ hist # <<>> /\ WithCall /\ NCalls < MaxCalls
+    /\ LET c == Call(ch, pack, fail, tg) IN
        /\ last' = <<[c |-> c, o |-> Outcome(c)]>>
        /\ handlers' = handlers \cup {ch}
        /\ hist' = Append(hist, [op |-> "call", calls |-> <<c>>, first |-> 1, salt |-> z])
-    /\ UNCHANGED cfg
+    /\ UNCHANGED <<cfg, know>>
 
 \* two goroutines, two channels: the hand-off goroutines are per channel, so the two downstream calls overlap;
 \* whichever is released first completes first - the outcomes do not depend on it
-ReplicatePar(packA, failA, packB, failB, first, z) ==
-    /\ hist # <<>> /\ WithPar
-    /\ LET a == Call("chA", packA, failA)
-           b == Call("chB", packB, failB) IN
+ReplicatePar(packA, failA, tgA, packB, failB, tgB, first, z) ==
+    /\ hist # <<>> /\ WithPar /\ NCalls < MaxCalls
+    /\ LET a == Call("chA", packA, failA, tgA)
+           b == Call("chB", packB, failB, tgB) IN
        /\ last' = IF first = 1 THEN <<[c |-> a, o |-> Outcome(a)], [c |-> b, o |-> Outcome(b)]>>
                                ELSE <<[c |-> b, o |-> Outcome(b)], [c |-> a, o |-> Outcome(a)]>>
        /\ hist' = Append(hist, [op |-> "par", calls |-> <<a, b>>, first |-> first, salt |-> z])
     /\ handlers' = handlers \cup {"chA", "chB"}
-    /\ UNCHANGED cfg
+    /\ UNCHANGED <<cfg, know>>
 
 Bounded == Len(hist) < MaxOps
 
-DoConfigure == Bounded /\ \E r \in BOOLEAN, m \in MapModes : Configure(r, m)
-DoReplicate == Bounded /\ \E ch \in Channels, pack \in Packs(Kinds, MaxLen), f \in BOOLEAN, z \in Salts :
-                              Replicate(ch, pack, f, z)
+DoConfigure == Bounded /\ \E r \in Rids, m \in Maps, sd \in SeedChoices : Configure(r, m, sd)
+DoLearn == Bounded /\ \E k \in LearnKinds, x \in LearnObjs : Learn(k, x)
+DoReplicate == Bounded /\ \E ch \in CallChs, pack \in Packs(Kinds, MaxLen), f \in BOOLEAN, tg \in Targets, z \in Salts :
+                              Replicate(ch, pack, f, tg, z)
 DoReplicatePar == Bounded /\ \E pa \in Packs(ParKinds, ParMaxLen), pb \in Packs(ParKinds, ParMaxLen),
-                                fa \in BOOLEAN, fb \in BOOLEAN, first \in {1, 2}, z \in Salts :
-                                 ReplicatePar(pa, fa, pb, fb, first, z)
+                                fa \in BOOLEAN, fb \in BOOLEAN, ta \in Targets, tb \in Targets, first \in {1, 2}, z \in Salts :
+                                 ReplicatePar(pa, fa, ta, pb, fb, tb, first, z)
 
-Next == DoConfigure \/ DoReplicate \/ DoReplicatePar
+Next == DoConfigure \/ DoLearn \/ DoReplicate \/ DoReplicatePar
 
 Spec == Init /\ [][Next]_vars
 
@@ -137,6 +213,7 @@ DownOK(cf, c, d) ==
     /\ Len(d.msgs) = Len(c.pack)
     /\ \A i \in 1..Len(c.pack) : MsgOK(cf, c, d, i)
 
+\* Nothing here depends on `know`: the statement makes no exception for packs of objects the writer believes dropped.
 CallOK(cf, c, o) ==
     /\ \A j \in 1..Len(o.down) : DownOK(cf, c, o.down[j])  \* every downstream call of this pack
     /\ ~o.ret.early                                        \* the call returns its OWN downstream outcome: not before that call completed
